@@ -17,7 +17,7 @@ def main():
               'loop-variable vs body-local capture, shadowing; each program at module level or wrapped in '
               'fn/method/lambda; 2 layouts; dbg(+stack monitor), rel, dbg under a dense collection schedule; '
               'non-trivial = at least two scope features present and > 20 model steps'),
-        n_quick=500, n_thorough=15000, layouts=2, stat_keys=('collections', 'objs_freed'),
+        n_quick=1500, n_thorough=60000, layouts=2, stat_keys=('collections', 'objs_freed'),
         requires=[('model_calls', 2000, 50000)])
 
 
